@@ -89,6 +89,9 @@ func runShard(a hkit.Args, al alphabet) shardOut {
 		lf, ln := levelPass(al)
 		st.clause["g"] += ln
 		stageFails = append(stageFails, lf...)
+		sf, sn := spacePass(al)
+		st.clause["h"] += sn
+		stageFails = append(stageFails, sf...)
 		for _, f := range stageFails {
 			f.Tier, f.Shard, f.Of = a.Tier, a.Shard, a.Of
 			out.FailCount[f.Sig]++
